@@ -112,10 +112,16 @@ fn run(descs: &[String]) -> Option<String> {
     let j = match parse(line) { Ok(j) => j, Err(e) => return Some(format!("{d} expected=valid JSON object actual=parse error: {e} in {shown:?}")) };
     let m = match j { J::Obj(m) => m, _ => return Some(format!("{d} expected=object actual={shown:?}")) };
     if m.len() != want.len() + 3 { return Some(format!("{d} expected={} members actual={} in {shown:?}", want.len() + 3, m.len())); }
-    let ok_fixed = m[0].0 == "time" && matches!(m[0].1, J::Str(_)) && m[1].0 == "level" && m[1].1 == J::Str("info".into()) && m[m.len() - 1].0 == "time_ns" && matches!(m[m.len() - 1].1, J::Num(_));
-    if !ok_fixed { return Some(format!("{d} expected=time, level, .., time_ns members actual={shown:?}")); }
+    // the three fixed members, each exactly once, wherever they stand (the property fixes their presence, not their place)
+    let count = |k: &str| m.iter().filter(|x| x.0 == k).count();
+    let find = |k: &str| m.iter().find(|x| x.0 == k).map(|x| x.1.clone());
+    let ok_fixed = count("time") == 1 && count("level") == 1 && count("time_ns") == 1
+        && matches!(find("time"), Some(J::Str(_))) && find("level") == Some(J::Str("info".into())) && matches!(find("time_ns"), Some(J::Num(_)));
+    if !ok_fixed { return Some(format!("{d} expected=the members time (string), level (\"info\"), time_ns (number), once each actual={shown:?}")); }
+    // ... and one member per tag, in the order of the tags
+    let rest: Vec<&(String, J)> = m.iter().filter(|x| x.0 != "time" && x.0 != "level" && x.0 != "time_ns").collect();
     for (k, (name, w)) in want.iter().enumerate() {
-        let (gn, gv) = &m[2 + k];
+        let (gn, gv) = rest[k];
         if gn != name || !same(gv, w) { return Some(format!("{d} expected=member {name}={w:?} actual={gn}={gv:?}")); }
     }
     None
